@@ -5,7 +5,7 @@ demo.py must exit 0 on the clean tree and non-zero with patch.diff applied; opti
 Writes the outcome into seeded/<name>/meta.json under "confirmed"."""
 import json, os, subprocess, sys, time
 V = os.path.dirname(os.path.abspath(__file__))
-WT = "/tmp/verif_confirm_repo"
+WT = os.environ.get("VERIF_CONFIRM_WT", "/tmp/verif_confirm_repo")
 suite = "--suite" in sys.argv
 names = [a for a in sys.argv[1:] if not a.startswith("--")] or sorted(
     d for d in os.listdir(os.path.join(V, "seeded")) if os.path.isdir(os.path.join(V, "seeded", d)))
